@@ -574,6 +574,15 @@ UNINITIALIZED_VALUE = UninitializedValue()
 """The only instance of :class:`UninitializedValue`."""
 
 
+def _literal_repr(val: object) -> str:
+    """repr() of an object of the checked program, for use in messages."""
+    try:
+        return repr(val)
+    except Exception:
+        # a __repr__ that raises, or an int with too many digits to print
+        return f"<{type(val).__name__} object>"
+
+
 @dataclass(frozen=True)
 class KnownValue(Value):
     """Equivalent to ``typing.Literal``. Represents a specific value.
@@ -672,7 +681,7 @@ class KnownValue(Value):
         elif isinstance(self.val, type):
             return f"type {get_fully_qualified_name(self.val)!r}"
         else:
-            return f"Literal[{self.val!r}]"
+            return f"Literal[{_literal_repr(self.val)}]"
 
     def substitute_typevars(self, typevars: TypeVarMap) -> "KnownValue":
         if not typevars or not callable(self.val):
@@ -2163,12 +2172,12 @@ class MultiValuedValue(Value):
         if not others:
             if has_none:
                 literals.append(KnownValue(None))
-            body = ", ".join(repr(val.val) for val in literals)
+            body = ", ".join(_literal_repr(val.val) for val in literals)
             return f"Literal[{body}]"
         else:
             elements = [str(val) for val in others]
             if literals:
-                body = ", ".join(repr(val.val) for val in literals)
+                body = ", ".join(_literal_repr(val.val) for val in literals)
                 elements.append(f"Literal[{body}]")
             if has_none:
                 elements.append("None")
